@@ -591,6 +591,17 @@ def run_c19(pid, tier, seed):
     from harness import repro
     a, b = repro.digests(cfgs), repro.digests(cfgs, churn=1000)
     runs = {"in-process-1": a, "in-process-2": b}
+    # each configuration run twice back to back (state kept in the library between two runs of one model shows here)
+    back = [repro.digests([c, c]) for c in cfgs]
+    runs["back-to-back-1"] = [x[0] for x in back]
+    runs["back-to-back-2"] = [x[1] for x in back]
+    more = [factory.gen_config(rng, with_fleet=True) if i % 3 else factory.gen_config_sc(rng) for i in range(200 if tier == "quick" else 3000)]
+    for c in more:
+        d1, d2 = repro.digests([c, c])
+        if d1 != d2:
+            res["violations"].append(dict(**{"class": "repro"}, message="the same configuration run twice back to back in one interpreter gave different outputs", case=c))
+            break
+    res["evaluations"] += 2 * len(more)
     with tempfile.NamedTemporaryFile("w", suffix=".json", delete=False) as f:
         json.dump(cfgs, f)
         path = f.name
@@ -612,7 +623,7 @@ def run_c19(pid, tier, seed):
                 break
     res["evaluations"] += n * len(runs)
     res["distribution"]["reproducibility_runs"] = {k: (len(v) if v else None) for k, v in runs.items()}
-    res["rule"] += "; plus %d configurations run twice in one interpreter and once in each of %d fresh interpreters with different PYTHONHASHSEED and allocation history, full canonical output compared by digest" % (n, len(runs) - 2)
+    res["rule"] += "; plus %d configurations run twice in one interpreter and once in each of %d fresh interpreters with different PYTHONHASHSEED and allocation history, and twice back to back, full canonical output compared by digest" % (n, len(runs) - 4)
     return res
 
 
